@@ -40,6 +40,7 @@ Sweep: C12.1 the children watch re-arms (answers True) and every notification re
 Fifth round: C12.5 the cache file is written in the format appcfg.manifest.load parses.
 Sixth round: C12.1 a failure to cache an instance escapes _synchronize (no handler around the _cache calls).
 Seventh round: no new clause (both seeds met C12.1 / C12.5 on first contact); the domain recognisers read .difference / .intersection spellings.
+Eighth round: C12.1 every element of the unlink / fetch / refresh domains is acted on - no iteration of the three loops ends before its unlink or _cache call.
 Does NOT decide real crash atomicity of the file system nor convergence from
 arbitrary prior contents beyond the set algebra.
 """
